@@ -8,10 +8,10 @@
 EXTENDS MCCore, Stats
 
 InvStatsRange ==
-  (G.rem /\ ~G.dir) =>
+  (~G.dir) =>
   LET O == ObsOf(G)
-      P == Triples(O)
       TT == IdSet(O)
+      P == { x \in Triples(O) : x[3] \in TT }
       V == NodesOf(O)
   IN /\ InUnit(Coverage(P, TT, V)) /\ InUnit(Uniformity(P, V)) /\ InUnit(Density(P, V))
      /\ \A u \in V : /\ InUnit(NodeContribution(P, TT, u)) /\ InUnit(NodeDensityA(P, V, u)) /\ InUnit(NodeDensityB(P, V, u))
